@@ -1,5 +1,6 @@
 import Tw.Model.Buffer
 import Tw.Proofs.Buffer
+import Tw.Proofs.BufferIdeal
 import Tw.Gen.Buffer
 
 /-!
@@ -178,6 +179,95 @@ theorem advance_refuses_overrun (v : View) (h : v.init ≤ v.mem.length) (n : Na
   constructor <;> intro hn
   · rw [if_pos (by omega)]
   · rw [if_neg (by omega)]
+
+/-! ## 7. every operation sequence: the model refines the ideal ("counts exactly") semantics
+
+`Tw/Proofs/BufferIdeal.lean` defines the *ideal* semantics the property describes in words: a view is
+just its capacity and the log of the bytes committed through it, in order (no memory, no counter);
+a write appends the fitting prefix to the log; a released nested view's log is appended to its
+parent's; the released outermost view's log is appended to the vector's contents (or becomes the
+slice reference).  A capped view has capacity `min`. -/
+
+/-- For every container kind, capacity, old contents, spare-memory content and **every** operation
+sequence (writes, extends, panicking iterators, `advance`, nested and capped views, reads with any
+reader, early exits, panics + unwinding):
+* the model of the code gives exactly the responses of the ideal semantics
+  (`Ok`/`Err(CapacityError)`, `remaining()`, the bytes of `initialized()` and of `read_buffer`,
+  panics);
+* every live view has the ideal view's capacity, its `initialized()` bytes are the ideal log — the
+  concatenation, in order, of what was committed through it and through its released children — and
+  its counter is the length of that log;
+* a vector's contents are the ideal contents (old contents followed by the logs of the released
+  outermost views), its length is their length, and its capacity is still `cap`; a slice keeps its
+  length; a slice reference is exactly the ideal slice. -/
+theorem model_refines_ideal_semantics (k : Kind) (cap : Nat) (old : List UInt8) (junk : UInt8)
+    (h : old.length ≤ cap) (ops : List Op) :
+    let m := (Sess.fresh (Store.fresh k cap old junk)).run ops
+    let i := (ISess.fresh (IStore.fresh k cap old)).run ops
+    m.2 = i.2 ∧
+    m.1.stack.length = i.1.stack.length ∧
+    (∀ p ∈ List.zip m.1.stack i.1.stack,
+      p.1.mem.length = p.2.cap ∧ p.1.initialized = some p.2.log ∧ p.1.init = p.2.log.length ∧
+      p.2.log.length ≤ p.2.cap) ∧
+    ((k = .vec ∨ k = .arr) → m.1.store.contents = i.1.store.data ∧
+      m.1.store.len = i.1.store.data.length ∧ m.1.store.buf.length = cap ∧ i.1.store.cap = cap) ∧
+    (k = .slice → m.1.store.contents.length = old.length) ∧
+    (k = .sref → m.1.store.contents = i.1.store.data) := by
+  intro m i
+  have key : Rel m.1 i.1 ∧ m.2 = i.2 := run_rel ops (fresh_rel k cap old junk h)
+  have hsame : i.1.store.Same (ISess.fresh (IStore.fresh k cap old)).store := ISess.run_same ops _
+  clear_value m i
+  obtain ⟨hrel, hresp⟩ := key
+  obtain ⟨hw, hs, hst, _⟩ := hrel
+  obtain ⟨hl, hz⟩ := stackRel_zip hst
+  refine ⟨hresp, hl, ?_, ?_, ?_, ?_⟩
+  · intro p hp
+    have hv := hz p hp
+    have hi := hv.init_eq
+    have hwf : p.1.init ≤ p.1.mem.length := hv.1
+    exact ⟨hv.2.1, by rw [View.initialized_eq hv.1, hv.2.2], hi, by rw [← hv.2.1, ← hi]; exact hwf⟩
+  all_goals
+    obtain ⟨sw, sk, sm⟩ := hs
+    have hik : i.1.store.kind = k := by rw [hsame.1]; cases k <;> rfl
+    have hmk : m.1.store.kind = k := sk.trans hik
+    intro hk
+  · have hcap : i.1.store.cap = cap := by
+      rw [hsame.2 (by rcases hk with e | e <;> subst e <;> simp [ISess.fresh, IStore.fresh])]
+      rcases hk with e | e <;> subst e <;> rfl
+    rcases hk with e | e <;> subst e <;> simp only [hmk] at sm <;>
+      exact ⟨sm.2.1, sm.2.2, sm.1.trans hcap, hcap⟩
+  · subst hk
+    simp only [hmk] at sm
+    have hcap : i.1.store.cap = old.length := by
+      rw [hsame.2 (by simp [ISess.fresh, IStore.fresh])]; rfl
+    simp only [Store.contents, hmk]
+    exact sm.trans hcap
+  · subst hk
+    simp only [hmk] at sm
+    simp only [Store.contents, hmk]
+    exact sm.2
+
+/-- No byte of the uninitialised spare capacity is ever observed: the responses of every operation
+sequence and the final contents of the container do not depend on what the spare memory held. -/
+theorem outputs_independent_of_uninitialized_memory (k : Kind) (hk : k = .vec ∨ k = .arr) (cap : Nat)
+    (old : List UInt8) (junk1 junk2 : UInt8) (h : old.length ≤ cap) (ops : List Op) :
+    let m1 := (Sess.fresh (Store.fresh k cap old junk1)).run ops
+    let m2 := (Sess.fresh (Store.fresh k cap old junk2)).run ops
+    m1.2 = m2.2 ∧ m1.1.store.contents = m2.1.store.contents ∧ m1.1.store.len = m2.1.store.len := by
+  intro m1 m2
+  obtain ⟨a1, _, _, a4, _, _⟩ := model_refines_ideal_semantics k cap old junk1 h ops
+  obtain ⟨b1, _, _, b4, _, _⟩ := model_refines_ideal_semantics k cap old junk2 h ops
+  exact ⟨a1.trans b1.symm, (a4 hk).1.trans (b4 hk).1.symm, (a4 hk).2.1.trans (b4 hk).2.1.symm⟩
+
+/-- The ideal semantics does what the property says, e.g.: a write that does not fit reports the
+error and commits exactly the fitting prefix; the vector ends up as old ++ committed bytes. -/
+theorem ideal_semantics_example :
+    ((ISess.fresh (IStore.fresh .vec 4 [0xa0])).run
+      [.openV [], .write [1], .openV [9], .write [2, 3, 4], .init, .init]).2 =
+      [.opened, .wrote true, .opened, .wrote false, .closed (some [2, 3]), .closed (some [1, 2, 3])] ∧
+    ((ISess.fresh (IStore.fresh .vec 4 [0xa0])).run
+      [.openV [], .write [1], .openV [9], .write [2, 3, 4], .init, .init]).1.store.data = [0xa0, 1, 2, 3] := by
+  decide
 
 -- non-vacuity: concrete sessions (a 4-byte vector holding 1 byte; nested + capped views; an error
 -- in the middle; a cap beyond the capacity)
